@@ -43,6 +43,7 @@ def may_add_pt(ctx, K):
         changed = False
         for p, cs in cg.items():
             if p.startswith(MOD) and p not in out and any(c in out for c in cs):
+                out.add(p)
                 out.add(p.split("::{closure")[0])
                 changed = True
     return direct, out
